@@ -115,3 +115,12 @@ Proof.
 Qed.
 Theorem make_private_rejects_eval (foreign : bool) (t : tree) : n_training t = false -> make_private_guards foreign t <> Ok tt.
 Proof. intros H E. apply make_private_guards_sound in E. destruct E as [_ [_ E]]. congruence. Qed.
+
+(* fix() keeps the train / eval mode: of every node it visits -- the replacement of a module is in the mode of the module it replaces
+   (an eval-mode model does not get training-mode, i.e. dropout-active, replacements) -- and hence of the root *)
+Lemma fixer_keeps_mode (b : bool) (t : tree) : n_training (fixer b t) = n_training t.
+Proof. destruct t as [k tr hp tk tg ch]. destruct k; cbn; try reflexivity; try (destruct b; reflexivity). destruct (Nat.eqb _ 0); reflexivity. Qed.
+Theorem fix_keeps_mode (b : bool) (t : tree) : n_training (fixt b t) = n_training t.
+Proof.
+  destruct t as [k tr hp tk tg ch]. cbn [fixt]. destruct (fix_visits _ && has_fixer k); [apply fixer_keeps_mode | reflexivity].
+Qed.
